@@ -119,6 +119,14 @@ Proof.
 Qed.
 Print Assumptions c02_cached_exec_refuted.
 
+(* statements without a cache key (a VALUES with data; an element class that has none) are compiled
+   on every execution and never enter the cache *)
+Example c02_uncacheable_statements :
+  gen_key T_ref s_values = None /\ gen_key T_ref s_nokey = None /\ wf T_ref s_values = true /\
+  map snd (fst (run T_ref V_ref ktree render_ref [] [step_of s_values; step_of s_3; step_of s_values])) = [[A 5]; [A 3]; [A 5]] /\
+  length (snd (run T_ref V_ref ktree render_ref [] [step_of s_values; step_of s_3; step_of s_values])) = 1%nat.
+Proof. repeat split; vm_compute; reflexivity. Qed.
+
 (* non-vacuity: a history over the reference table (cold, warm with a different literal, disabled,
    evicted) satisfying every hypothesis of the guarded theorem; the column object is shared *)
 Example c02_hypotheses_satisfiable :
